@@ -1,9 +1,10 @@
 package main
 
-// Stage installif: the configuration built to trigger finding C01-F1.
-// (1) the real resolver, in process, many fresh resolutions of one universe
-// with four install_if packages: every observed order must be an order the
-// model produces for SOME iteration order of the dependency map;
+// Stage installif: configurations built to trigger what was finding C01-F1
+// (install_if packages appended in Go map order; fixed by c03e0c0).
+// (1) the real resolver, in process, many fresh resolutions of universes with
+// several install_if packages (flat, chains, several triggers): every observed
+// order must EQUAL the one order of the model and all runs must agree;
 // (2) repeated identical CLI builds of that universe: install order (read
 // back from lib/apk/db/installed inside the layer) and image digests.
 
@@ -25,16 +26,64 @@ import (
 	"verifharness/synthrepo"
 )
 
-func resolveOnce(n int) ([]string, error) {
-	var pkgs []*apk.Package
-	var deps []string
+// one install_if universe in the terms of Model/Repro.v: top depends on the leaf
+// packages Deps; Pkgs are the install_if packages in INDEX order (the order of
+// the per-key lists of installIfMap). Deps is sorted: getPackageDependencies
+// takes equally constrained dependencies in string order, so that is the
+// dependency list the install_if loop starts with.
+type iiPkg struct {
+	Name string   `json:"name"`
+	If   []string `json:"install_if"`
+}
+type iiUniverse struct {
+	Kind string   `json:"kind"`
+	Deps []string `json:"leaf_dependencies_of_top"`
+	Pkgs []iiPkg  `json:"install_if_packages_in_index_order"`
+}
+
+func flatUniverse(n int) iiUniverse {
+	u := iiUniverse{Kind: fmt.Sprintf("flat-%d", n)}
 	for i := 1; i <= n; i++ {
 		d := fmt.Sprintf("d%d", i)
-		deps = append(deps, d)
-		pkgs = append(pkgs, &apk.Package{Name: d, Version: "1.0-r0"})
-		pkgs = append(pkgs, &apk.Package{Name: fmt.Sprintf("x%d", i), Version: "1.0-r0", InstallIf: []string{d}})
+		u.Deps = append(u.Deps, d)
+		u.Pkgs = append(u.Pkgs, iiPkg{fmt.Sprintf("x%d", i), []string{d}})
 	}
-	pkgs = append(pkgs, &apk.Package{Name: "top", Version: "1.0-r0", Dependencies: deps})
+	return u
+}
+
+// install_if structure the map-order loop could not handle deterministically:
+// chains (y1 after x1 after d1, three deep), several triggers per package, a
+// package waiting for two appended packages, packages listed in the index
+// BEFORE the packages that trigger them, two packages under one key.
+func iiUniverses() []iiUniverse {
+	us := []iiUniverse{flatUniverse(1), flatUniverse(2), flatUniverse(4)}
+	us = append(us, iiUniverse{Kind: "chain", Deps: []string{"d1", "d2", "d3"}, Pkgs: []iiPkg{
+		{"z1", []string{"y1"}}, {"y1", []string{"x1"}}, {"x1", []string{"d1"}}, {"x2", []string{"d2"}}, {"y2", []string{"x2"}}, {"x3", []string{"d3"}}}})
+	us = append(us, iiUniverse{Kind: "multi-trigger", Deps: []string{"d1", "d2", "d3", "d4"}, Pkgs: []iiPkg{
+		{"m12", []string{"d1", "d2"}}, {"m23", []string{"d3", "d2"}}, {"m1234", []string{"d4", "d1", "d3", "d2"}},
+		{"mm", []string{"m12", "m23"}}, {"never", []string{"d1", "absent"}}, {"x4", []string{"d4"}}, {"x4b", []string{"d4"}}}})
+	us = append(us, iiUniverse{Kind: "chain-and-multi", Deps: []string{"d1", "d2", "d3", "d4"}, Pkgs: []iiPkg{
+		{"c3", []string{"c2", "d4"}}, {"c2", []string{"c1"}}, {"c1", []string{"d2"}}, {"x1", []string{"d1"}}, {"x3", []string{"d3"}},
+		{"j", []string{"x1", "x3"}}, {"k", []string{"j", "c3"}}, {"x4", []string{"d4"}}}})
+	// the CLI universe: every install_if package sorts after "top", so that in the
+	// locked world (sorted) they are all still untracked when top is resolved and
+	// their install order is the order of the install_if loop
+	us = append(us, iiUniverse{Kind: "cli", Deps: []string{"d1", "d2", "d3", "d4"}, Pkgs: []iiPkg{
+		{"z", []string{"y12", "y3"}}, {"y12", []string{"x2", "x1"}}, {"y3", []string{"x3"}}, {"x4", []string{"d4"}}, {"x3", []string{"d3"}},
+		{"x2", []string{"d2"}}, {"x1", []string{"d1"}}, {"w", []string{"d4", "d1"}}, {"c1", []string{"d2"}}, {"c2", []string{"c1", "z"}}}})
+	return us
+}
+
+func resolveOnce(u iiUniverse) ([]string, error) {
+	var pkgs []*apk.Package
+	// install_if packages first (they come before their triggers in the index), leaves, top
+	for _, p := range u.Pkgs {
+		pkgs = append(pkgs, &apk.Package{Name: p.Name, Version: "1.0-r0", InstallIf: append([]string(nil), p.If...)})
+	}
+	for _, d := range u.Deps {
+		pkgs = append(pkgs, &apk.Package{Name: d, Version: "1.0-r0"})
+	}
+	pkgs = append(pkgs, &apk.Package{Name: "top", Version: "1.0-r0", Dependencies: append([]string(nil), u.Deps...)})
 	repo := &apk.Repository{URI: "https://example.invalid/c01/x86_64"}
 	ix := []apk.NamedIndex{apk.NewNamedRepositoryWithIndex("", repo.WithIndex(&apk.APKIndex{Packages: pkgs}))}
 	ctx := context.Background()
@@ -97,13 +146,13 @@ func stageInstallIf() {
 	if *tier == "thorough" {
 		nres = 400
 	}
-	for _, n := range []int{1, 2, 4} {
+	for _, u := range iiUniverses() {
 		var orders [][]string
 		seen := map[string]bool{}
 		for i := 0; i < nres; i++ {
-			o, err := resolveOnce(n)
+			o, err := resolveOnce(u)
 			if err != nil {
-				fmt.Printf("IMPL-VIOLATION tag=resolver-fails-on-install-if-universe %s\n", jsonOf(map[string]any{"n": n, "error": err.Error()}))
+				fmt.Printf("IMPL-VIOLATION tag=resolver-fails-on-install-if-universe %s\n", jsonOf(map[string]any{"universe": u, "error": err.Error()}))
 				break
 			}
 			k := strings.Join(o, " ")
@@ -112,7 +161,7 @@ func stageInstallIf() {
 				orders = append(orders, o)
 			}
 		}
-		w.Add(installIfCase("resolver", n, orders, nil, nres, nil))
+		w.Add(installIfCase("resolver", u, orders, nil, nres, nil))
 	}
 	// (2) CLI builds
 	root, apko := setup("installif")
@@ -123,7 +172,8 @@ func stageInstallIf() {
 	if err != nil {
 		fatal("%v", err)
 	}
-	repo, err := synthrepo.Write(filepath.Join(root, "repo"), key, installIfUniverse())
+	cliU := iiUniverses()[6]
+	repo, err := synthrepo.Write(filepath.Join(root, "repo"), key, installIfUniverse(cliU))
 	if err != nil {
 		fatal("synthrepo: %v", err)
 	}
@@ -163,7 +213,7 @@ func stageInstallIf() {
 		digests = append(digests, d)
 		cmds = append(cmds, res.Cmd)
 	}
-	w.Add(installIfCase("cli-build", 4, orders, digests, nb, cmds))
+	w.Add(installIfCase("cli-build", cliU, orders, digests, nb, cmds))
 	if err := w.Flush(); err != nil {
 		fatal("%v", err)
 	}
@@ -174,15 +224,20 @@ func stageInstallIf() {
 	fmt.Printf("STAT %s\n", jsonOf(map[string]any{"installif_builds": len(digests), "installif_distinct_image_digests": len(distinct)}))
 }
 
-func installIfCase(kind string, n int, orders [][]string, digests []string, runs int, cmds []string) gal.Case {
+func installIfCase(kind string, u iiUniverse, orders [][]string, digests []string, runs int, cmds []string) gal.Case {
 	ol := make([]string, len(orders))
 	for i, o := range orders {
 		ol[i] = gal.StrList(o)
 	}
-	term := fmt.Sprintf("{| f_kind := %s; f_n := %s; f_orders := %s; f_digests := %s |}", gal.Str(kind), gal.Nat(n), gal.List(ol), gal.StrList(digests))
-	desc := map[string]any{"kind": kind, "install_if_packages": n, "runs": runs, "observed_orders": orders, "image_manifest_digests": digests}
+	pl := make([]string, len(u.Pkgs))
+	for i, p := range u.Pkgs {
+		pl[i] = fmt.Sprintf("(IP %s %s)", gal.Str(p.Name), gal.StrList(p.If))
+	}
+	term := fmt.Sprintf("{| f_kind := %s; f_pkgs := %s; f_deps := %s; f_orders := %s; f_digests := %s |}",
+		gal.Str(kind), gal.List(pl), gal.StrList(u.Deps), gal.List(ol), gal.StrList(digests))
+	desc := map[string]any{"kind": kind, "universe": u, "world": []string{"top"}, "runs": runs, "observed_orders": orders, "image_manifest_digests": digests}
 	if len(cmds) > 0 {
 		desc["command_line_of_every_build"] = cmds[0]
 	}
-	return gal.Case{Term: term, Desc: desc, Class: fmt.Sprintf("%s/n=%d", kind, n), Trivial: n < 2, Key: fmt.Sprintf("%s/%d", kind, n)}
+	return gal.Case{Term: term, Desc: desc, Class: fmt.Sprintf("%s/%s", kind, u.Kind), Trivial: len(u.Pkgs) < 2, Key: fmt.Sprintf("%s/%s", kind, u.Kind)}
 }
